@@ -345,6 +345,7 @@ func (w *world) mineRenterOnly(n int) []types.Block {
 //
 //	same       both on the same tip
 //	behind     the renter lacks the last 3 host blocks
+//	behind-far the renter lacks the last 146 host blocks (more than a set is rebased over)
 //	fork-ok    the renter sits on a one-block fork the host applied and left
 //	fork-stale the renter sits on a fork the host stored but never applied
 //	unknown    the renter sits on a fork the host has never seen
@@ -359,6 +360,11 @@ func (w *world) setRelation(rel string) {
 	case "same":
 	case "behind":
 		for i := 0; i < 3; i++ {
+			w.mineHost(types.VoidAddress, false)
+		}
+	case "behind-far":
+		// beyond the distance over which the chain manager rebases a transaction set (144)
+		for i := 0; i < 146; i++ {
 			w.mineHost(types.VoidAddress, false)
 		}
 	case "unknown":
